@@ -11,7 +11,9 @@ import (
 	"sort"
 	"strconv"
 	"strings"
+	"os"
 	"sync"
+	"time"
 
 	"github.com/pingcap/kvproto/pkg/metapb"
 	"github.com/tikv/pd/pkg/mock/mockid"
@@ -31,16 +33,112 @@ type world struct {
 	cancel  context.CancelFunc
 	rc      *cluster.RaftCluster
 	storage *core.Storage
+	gate    *gateKV
+	dir     string                 // leveldb directory of the region storage (leveldb mode)
+	held    map[int]*heldHeartbeat // heartbeats parked at their first storage write
 }
 
-func (w *world) reset() {
+// gateKV wraps the kv.Base of core.Storage (an exported embedded interface): when armed, the next Save or Remove
+// parks its goroutine until it is released.
+type gateKV struct {
+	kv.Base
+	mu      sync.Mutex
+	armed   bool
+	parked  chan struct{}
+	release chan struct{}
+}
+
+func (g *gateKV) arm() (parked, release chan struct{}) {
+	g.mu.Lock()
+	defer g.mu.Unlock()
+	g.armed, g.parked, g.release = true, make(chan struct{}), make(chan struct{})
+	return g.parked, g.release
+}
+
+func (g *gateKV) disarm() {
+	g.mu.Lock()
+	g.armed = false
+	g.mu.Unlock()
+}
+
+func (g *gateKV) maybePark() {
+	g.mu.Lock()
+	if !g.armed {
+		g.mu.Unlock()
+		return
+	}
+	g.armed = false
+	p, r := g.parked, g.release
+	g.mu.Unlock()
+	close(p)
+	<-r
+}
+
+func (g *gateKV) Save(k, v string) error { g.maybePark(); return g.Base.Save(k, v) }
+func (g *gateKV) Remove(k string) error  { g.maybePark(); return g.Base.Remove(k) }
+
+type heldHeartbeat struct {
+	release chan struct{}
+	done    chan string
+}
+
+func (w *world) letGo() {
+	for i, h := range w.held {
+		close(h.release)
+		<-h.done
+		delete(w.held, i)
+	}
+}
+
+func (w *world) reset(leveldb bool) {
+	w.letGo()
 	if w.cancel != nil {
 		w.cancel()
 	}
+	if w.storage != nil && w.dir != "" {
+		w.storage.Close()
+	}
+	if w.dir != "" {
+		os.RemoveAll(w.dir)
+		w.dir = ""
+	}
+	w.held = map[int]*heldHeartbeat{}
 	w.ctx, w.cancel = context.WithCancel(context.Background())
-	w.storage = core.NewStorage(kv.NewMemoryKV())
+	if leveldb {
+		// the region storage the server uses: leveldb behind core.RegionStorage's write batch
+		dir, err := os.MkdirTemp(".", "regioncache-leveldb-")
+		if err != nil {
+			panic(err)
+		}
+		w.dir = dir
+		rs, err := core.NewRegionStorage(w.ctx, dir, nil)
+		if err != nil {
+			panic(err)
+		}
+		w.storage = core.NewStorage(kv.NewMemoryKV(), core.WithRegionStorage(rs))
+		w.storage.SwitchToRegionStorage()
+		w.gate = nil
+	} else {
+		w.storage = core.NewStorage(kv.NewMemoryKV())
+		w.gate = &gateKV{Base: w.storage.Base}
+		w.storage.Base = w.gate
+	}
 	w.rc = cluster.NewRaftCluster(w.ctx, "", 1, nil, nil, nil)
 	w.rc.InitCluster(mockid.NewIDAllocator(), config.NewTestOptions(), w.storage, core.NewBasicCluster())
+}
+
+// reload: what a restarting server would serve: every stored region handed to CheckAndPutRegion of a fresh
+// cache in id order (read-only: nothing is deleted from storage here)
+func (w *world) reload() string {
+	bc := core.NewBasicCluster()
+	err := w.storage.LoadRegions(func(r *core.RegionInfo) []*core.RegionInfo {
+		bc.CheckAndPutRegion(r)
+		return nil
+	})
+	if err != nil {
+		panic(err)
+	}
+	return "R=" + regionh.IDs(bc.ScanRange([]byte(""), []byte(""), 0))
 }
 
 func (w *world) served() string {
@@ -89,9 +187,47 @@ func (w *world) exec(op string) string {
 	f := strings.Fields(op)
 	u := func(s string) uint64 { n, _ := strconv.ParseUint(s, 10, 64); return n }
 	switch {
-	case len(f) == 1 && f[0] == "reset":
-		w.reset()
+	case f[0] == "reset" && len(f) <= 2:
+		w.reset(len(f) == 2 && f[1] == "leveldb")
 		return "ok"
+	case len(f) == 1 && f[0] == "flush":
+		if err := w.storage.Flush(); err != nil {
+			return "err"
+		}
+		return "ok M=" + w.stored()
+	case len(f) == 1 && f[0] == "reload":
+		return w.reload()
+	case len(f) >= 12 && f[0] == "ghb":
+		// ghb <stream> <spec>: the heartbeat runs in its own goroutine until its first storage write (Save /
+		// Remove on the kv.Base of the storage), where it is held; or until it returns
+		i, _ := strconv.Atoi(f[1])
+		if w.gate == nil || w.held[i] != nil {
+			return "bad-op"
+		}
+		r := regionh.ParseSpec(f[2:]).Region()
+		parked, release := w.gate.arm()
+		done := make(chan string, 1)
+		go func() { done <- verdict(w.rc.VerifProcessRegionHeartbeat(r)) }()
+		select {
+		case <-parked:
+			w.held[i] = &heldHeartbeat{release: release, done: done}
+			return fmt.Sprintf("parked S=%s M=%s", w.served(), w.stored())
+		case v := <-done:
+			w.gate.disarm()
+			return fmt.Sprintf("%s S=%s M=%s", v, w.served(), w.stored())
+		case <-time.After(20 * time.Second):
+			panic("ghb: neither parked nor done")
+		}
+	case len(f) == 2 && f[0] == "release":
+		i, _ := strconv.Atoi(f[1])
+		h := w.held[i]
+		if h == nil {
+			return "bad-op"
+		}
+		close(h.release)
+		v := <-h.done
+		delete(w.held, i)
+		return fmt.Sprintf("%s S=%s M=%s", v, w.served(), w.stored())
 	case len(f) >= 11 && f[0] == "hb":
 		r := regionh.ParseSpec(f[1:]).Region()
 		v := verdict(w.rc.VerifProcessRegionHeartbeat(r))
@@ -218,6 +354,7 @@ type gen struct {
 	pool   []string  // emitted, not yet (or no longer exclusively) delivered heartbeats
 	kinds  map[string]int
 	conc   bool
+	ldb    bool // this sequence runs on the leveldb region storage (flush / reload ops)
 }
 
 func (g *gen) key() []byte {
@@ -465,8 +602,53 @@ func (g *gen) deliver() {
 		return
 	}
 	s := take()
+	if !g.ldb && g.r.Bool(1, 10) {
+		// hold this heartbeat at its first storage write, handle others (a newer one of the same region with
+		// preference), then let it go
+		out := g.w.run(g.t, "ghb 0 "+s)
+		g.kinds["ghb-"+strings.Fields(out)[0]]++
+		if strings.HasPrefix(out, "parked") {
+			f := strings.Fields(s)
+			for j, nj := 0, g.r.Range(1, 3); j < nj; j++ {
+				switch g.r.Intn(3) {
+				case 0: // the same region one version / conf-version later
+					nf := append([]string{}, f...)
+					k := 3 + g.r.Intn(2)
+					v, _ := strconv.Atoi(nf[k])
+					nf[k] = strconv.Itoa(v + 1)
+					g.w.run(g.t, "hb "+strings.Join(nf, " "))
+					g.kinds["hb-newer-while-held"]++
+				case 1: // another pending heartbeat of the same region, if there is one
+					sent := false
+					for _, p := range g.pool {
+						if strings.HasPrefix(p, f[0]+" ") && p != s {
+							g.w.run(g.t, "hb "+p)
+							sent = true
+							break
+						}
+					}
+					if !sent && len(g.pool) > 0 {
+						g.w.run(g.t, "hb "+g.pool[g.r.Intn(len(g.pool))])
+					}
+				default:
+					if len(g.pool) > 0 {
+						g.w.run(g.t, "hb "+g.pool[g.r.Intn(len(g.pool))])
+					}
+				}
+			}
+			g.w.run(g.t, "release 0")
+		}
+		return
+	}
 	out := g.w.run(g.t, "hb "+s)
 	g.kinds["hb-"+strings.Fields(out)[0]]++
+	if g.ldb && g.r.Bool(1, 8) {
+		g.kinds["flush"]++
+		g.w.run(g.t, "flush")
+	}
+	if g.r.Bool(1, 25) {
+		g.w.run(g.t, "reload")
+	}
 	if g.r.Bool(1, 3) {
 		f := strings.Fields(s)
 		switch g.r.Intn(3) {
@@ -485,7 +667,12 @@ func (g *gen) deliver() {
 }
 
 func (g *gen) sequence(maxOps int, kind int) {
-	g.w.run(g.t, "reset")
+	if g.ldb {
+		g.kinds["seq-leveldb"]++
+		g.w.run(g.t, "reset leveldb")
+	} else {
+		g.w.run(g.t, "reset")
+	}
 	g.mode = g.r.Pick(3, 2)
 	g.stores = g.r.Range(3, 5)
 	g.nextID, g.nextP = 0, 0
@@ -544,10 +731,12 @@ func main() {
 	maxOps := flag.Int("len", 150, "max steps per sequence")
 	conc := flag.Bool("conc", false, "also deliver batches of heartbeats concurrently")
 	stream := flag.Uint64("stream", 0, "PRNG stream")
+	ldb := flag.Int("leveldb", 6, "one sequence in this many runs on the leveldb region storage with its write batch (0 = never)")
 	flag.Parse()
 
 	w := &world{}
-	w.reset()
+	w.reset(false)
+	defer w.reset(false)
 	t := trace.Create(*out)
 	defer t.Close()
 	if *replay != "" {
@@ -559,6 +748,7 @@ func main() {
 	g := &gen{w: w, t: t, r: rng.FromEnv(*stream), kinds: map[string]int{}}
 	for s := 0; s < *n; s++ {
 		g.conc = *conc && s%4 == 3 // batches of concurrently handled heartbeats in every 4th sequence
+		g.ldb = *ldb > 0 && s%*ldb == 1 && !g.conc
 		g.sequence(*maxOps, []int{0, 0, 1, 0, 2}[s%5])
 	}
 	var ks []string
